@@ -81,6 +81,9 @@ type c18World struct {
 
 var c18BrokenCases int
 
+var c18Forced = map[string]bool{"looked": true, "wait": true, "inside": true, "giveup": true, "create": true,
+	"leave.unready": true, "leave.dec": true, "leave.del": true}
+
 var c18Blocking = map[string]bool{"looked": true, "inside": true, "create": true, "leave.unready": true, "leave.dec": true}
 
 func (w *c18World) handler(hook string, args ...any) {
@@ -114,6 +117,9 @@ func (w *c18World) handler(hook string, args ...any) {
 		return
 	}
 	ev := c18Event{t: t, name: strings.TrimPrefix(hook, "summon.")}
+	if !c18Forced[ev.name] {
+		return // points used by the stress domain only
+	}
 	if os.Getenv("C18_DEBUG") != "" {
 		fmt.Fprintf(os.Stderr, "%s emit t=%d %s ctxErr=%v\n", time.Now().Format("05.000000"), t, ev.name, ctx.Err())
 	}
